@@ -16,6 +16,7 @@
 //   rowsx <api> <dests> <fv> <logical response> <wire>   model-vs-code: nil destinations (KF-C04-3 on tuple columns), tuple<> columns, duplicate RowData names, malformed rows
 //   skip / skipx  end to end through a real Session on the in-memory cluster, see e2e.go
 //   reuse / reusex  typed destinations reused across the rows of a page, see reuse.go
+//   pages / pagesx  a whole query (all its pages, or its error) through a real Session, see pages.go
 package main
 
 import (
@@ -262,6 +263,10 @@ func exec(op string) (res string) {
 		return execSkip(w)
 	case "reuse", "reusex":
 		return execReuseOp(w)
+	case "pages", "pagesn", "pagesx":
+		return execPages(w)
+	case "qone":
+		return execQone(w)
 	}
 	return "bad-op"
 }
